@@ -24,7 +24,7 @@ PROP = "C09"
 def run(ctx):
     repo = ctx.repo
     res = Result(PROP)
-    res.rules = ["K1", "K2", "K5", "K-CANON", "K3(info)"]
+    res.rules = ["K1", "K2", "K5", "K-CANON", "M-MAP", "K3(info)"]
     res.explanation = (
         "Abstract interpretation of every function of the structural-measure modules over ID / position kinds and the "
         "container shapes built from them (sa/kinds.py): each subscript is checked for a label used as a position or a "
@@ -33,9 +33,19 @@ def run(ctx):
     )
     fns = functions_of(repo, ["xgi.algorithms", "xgi.linalg", "xgi.stats", "xgi.communities"], exact=("xgi.convert.graph", "xgi.convert.line_graph", "xgi.convert.encapsulation_dag", "xgi.utils.trie"))
     fns = [f for f in fns if not (f.cls is not None and f.cls.name in ("IDStat", "MultiIDStat"))]
-    run_kinds(ctx, res, PROP, fns, 250, 40)
+    eng = run_kinds(ctx, res, PROP, fns, 250, 40)
     if not ctx.only:
         check_trie(repo, res)
+        # row/column order convention of the matrix builders: callers that use a matrix without its index maps
+        # (katz_centrality, the spectral functions) take row i to be the i-th ID of the view
+        from . import c12_matrices
+
+        n = 0
+        for fn in fns:
+            if fn.module.name.startswith("xgi.linalg") and fn.cls is None and "index" in fn.all_params:
+                n += 1
+                c12_matrices.check_map(repo, eng, res, fn, prop=PROP)
+        res.floor("matrix builders with an index option", n, 11)
     return res
 
 
